@@ -293,10 +293,74 @@ class Sh:
         else:
             self.res["nontrivial"].add(case_hash(["args", self.desc["mode"]]))
 
+    def scenarios(self):
+        """hand-written shapes a random walk rarely produces; judged by the log invariants only"""
+        pre = "import vmod;\nimport vmod2;\n" + FUNCS + "function two(p:vmod, n:integer) return integer is begin return n; end;\n"
+        S = [
+            # (program, number of objects created per module or None, may fail with a BLOC error)
+            ("a = vmod(1); for i in 1 to 2 loop z = a.ping(); a = vmod2(2); end loop;", None, True),
+            ("a = vmod(1); b = vmod2(2); for i in 1 to 3 loop z = a.id(); c = a; a = b; b = c; end loop;", None, True),
+            ("a = vmod(1); z = two(a, 1); begin z = two(a, 1 / 0); exception when divide_by_zero then nop; end; z = two(a, 2); a = null;", {"vmod": 1, "vmod2": 0}, False),
+            ("a = vmod(1); z = two(a, 1); begin z = two(vmod(2), 1 / 0); exception when divide_by_zero then nop; end; begin z = two(vmod(3), int(\"x\")); exception when others then nop; end; a = null;", {"vmod": 3, "vmod2": 0}, True),
+            ("a = vmod(1); t = tab(70000, a); b = a; b = null; z = a.ping(); c = t.at(69999); z = c.ping(); t = null; z = a.ping();", {"vmod": 1, "vmod2": 0}, False),
+            ("a = vmod(1); t = tab(65535, a); b = a; c = a; b = null; c = null; z = a.ping(); z = t.at(0).ping();", {"vmod": 1, "vmod2": 0}, False),
+            ("a = vmod(1); t = tab(300, a); u = tab(300, t); z = u.at(299).at(299).ping(); u = null; z = a.ping(); t = null; z = a.ping();", {"vmod": 1, "vmod2": 0}, False),
+            ("a = vmod(666);", {"vmod": 0, "vmod2": 0}, True),
+            ("begin a = vmod(1); z = a.fail(); exception when others then nop; end; z = a.ping();", {"vmod": 1, "vmod2": 0}, True),
+            ("a = vmod(1); b = a.settag(5); c = b.settag(6); a = null; z = c.ping(); b = null; z = c.tag();", {"vmod": 1, "vmod2": 0}, False),
+            ("a = vmod(vmod(1)); z = a.ping();", {"vmod": 2, "vmod2": 0}, False),
+            ("a = vmod(1); r = tup(a, a, 1); b = r@2; r = null; a = null; z = b.ping();", {"vmod": 1, "vmod2": 0}, False),
+            ("t = tab(3, vmod(1)); forall e in t loop e = vmod(2); end loop; z = t.at(2).ping();", {"vmod": 6, "vmod2": 0}, False),
+            ("function deep(n:integer, p:vmod) return vmod is begin if n <= 0 then return p; end if; return deep(n - 1, p); end; a = deep(50, vmod(1)); z = a.ping();", {"vmod": 1, "vmod2": 0}, False),
+        ]
+        for text, counts, mayfail in S:
+            for rel in ("free", "purge-free", "clone-free-original"):
+                open(self.log, "w").close()
+                ops = ["new A 1", "parse A PRE %s" % hx(pre), "run A PRE 1000", "parse A P %s" % hx(text), "run A P 2000000"]
+                if rel == "purge-free": ops += ["purge A", "free A"]
+                elif rel == "clone-free-original": ops += ["clone A B", "free A", "free B"]
+                else: ops += ["free A"]
+                ops.append("reset")
+                rr = self.probe.case(ops)
+                self.res["evaluations"] += 1; bump(self.res, "scenarios")
+                wit = {"ops": ops, "program": pre + text, "release": rel}
+                if rr.crashed:
+                    bump(self.res, "worker_crashes")
+                    add_violation(self.res, "C17|scenario|crash:%s" % rr.sig, "`%s` crashed (%s mode, %s): %s" % (text[:100], self.desc["mode"], rel, rr.sig), dict(wit, report=rr.report[-3000:])); continue
+                rep = rr.replies
+                if not rep[3].startswith("ok") or (not mayfail and not rep[4].startswith("ok")):
+                    self.viol("scenario|program-failed", "`%s`: %s / %s" % (text[:100], rep[3][:80], rep[4][:80]), wit); continue
+                lines = open(self.log).read().splitlines()
+                created = {}; destroyed = {}; bad = None
+                for n_, l in enumerate(lines):
+                    f = l.split()
+                    if f[0] == "C": created[(f[1], f[2])] = n_
+                    elif f[0] == "D":
+                        if (f[1], f[2]) in destroyed: bad = ("double-destroy", l)
+                        destroyed[(f[1], f[2])] = n_
+                    elif f[0] == "DD": bad = ("double-destroy", l)
+                    elif f[0] == "M":
+                        if "STALE" in f: bad = ("method-on-dead-object", l)
+                        if "FOREIGN" in f: bad = ("method-on-foreign-object", l)
+                        if (f[1], f[2]) in destroyed: bad = ("method-after-destroy", l)
+                        if (f[1], f[2]) not in created and f[2] != "null": bad = ("method-on-unknown-object", l)
+                if bad:
+                    self.viol("scenario|" + bad[0], "`%s` (%s): %s" % (text[:120], rel, bad[1]), wit); continue
+                missing = [k for k in created if k not in destroyed]
+                if missing:
+                    self.viol("scenario|never-destroyed", "`%s` (%s): %d object(s) never destroyed, e.g. %s" % (text[:120], rel, len(missing), missing[0]), wit); continue
+                if counts is not None:
+                    got = {"vmod": sum(1 for k in created if k[0] == "vmod"), "vmod2": sum(1 for k in created if k[0] == "vmod2")}
+                    if got != counts and rep[4].startswith("ok"):
+                        self.viol("scenario|create-count", "`%s`: created %s, expected %s" % (text[:120], got, counts), wit); continue
+                self.res["nontrivial"].add(case_hash(["scn", text, rel, self.desc["mode"]]))
+
     def run(self):
         n = 600 if self.desc["tier"] == "quick" else 12000
         try:
             self.args()
+            if self.desc["k"] < 2:
+                self.scenarios()
             for _ in range(n):
                 self.one()
                 if self.res["counters"].get("worker_crashes", 0) > CRASH_BUDGET: break
